@@ -172,13 +172,17 @@ def gen_image(spec):
     tm = spec.get("time", "none")
     n = T or 1
     dates = [DT0 + datetime.timedelta(seconds=37 * i + spec.get("t0", 0)) for i in range(n)]
+    tzi = datetime.timezone(datetime.timedelta(hours=spec["tz"])) if spec.get("tz") is not None else None
+    if tzi is not None or spec.get("fold"):
+        # time-zone aware stamps (what %z metadata give) and stamps in the repeated hour of a daylight-saving switch (fold=1)
+        dates = [d.replace(tzinfo=tzi, fold=1 if spec.get("fold") and i % 2 == 0 else 0) for i, d in enumerate(dates)]
     times = [float(5 * i + spec.get("t0", 0)) for i in range(n)]
     if tm in ("date", "both"):
         kw["date"] = dates if T else dates[0]
     if tm in ("time", "both"):
         kw["time"] = times if T else times[0]
     if tm == "both":
-        kw["reference_date"] = DT0 - datetime.timedelta(seconds=100)
+        kw["reference_date"] = (DT0 - datetime.timedelta(seconds=100)).replace(tzinfo=tzi, fold=1 if spec.get("fold") else 0)
     with warnings.catch_warnings():
         warnings.simplefilter("ignore")
         cls = spec.get("cls", "Image")
@@ -759,6 +763,11 @@ class C18Engine(Engine):
         if r.random() < 0.4:
             spec["series"] = r.randint(1, 4)
         spec["time"] = r.choice(["none", "date", "time", "both"])
+        if spec["time"] in ("date", "both"):
+            if r.random() < 0.25:
+                spec["tz"] = r.choice([2, -5, 0])
+            if r.random() < 0.2:
+                spec["fold"] = True
         spec["t0"] = r.choice([0, 3, 1000])
         spec["dims"] = [r.choice([1e-4, 0.5, 1.0, 3.0, 1e4]) for _ in spec["shape"]]
         if r.random() < 0.4:
